@@ -695,7 +695,11 @@ func NewModuleConfig() ModuleConfig {
 
 // clone makes a deep copy of this module config.
 func (c *moduleConfig) clone() *moduleConfig {
-	ret := *c // copy except maps which share a ref
+	ret := *c // copy except slices and maps which share a ref
+	// environ is written in place by WithEnv (append and index assignment), so
+	// it must not share a backing array with the receiver or its siblings.
+	ret.environ = make([][]byte, 0, len(c.environ))
+	ret.environ = append(ret.environ, c.environ...)
 	ret.environKeys = make(map[string]int, len(c.environKeys))
 	for key, value := range c.environKeys {
 		ret.environKeys[key] = value
